@@ -246,7 +246,18 @@ func (h *H) Act(m int, args ...any) *Node {
 			break
 		}
 	}
+	var errArgs []any
 	for _, a := range args {
+		// an Error can also arrive inside the list of an @error*, @error+ term
+		if l, ok := a.([]Err); ok {
+			for _, e := range l {
+				errArgs = append(errArgs, e)
+			}
+		} else {
+			errArgs = append(errArgs, a)
+		}
+	}
+	for _, a := range errArgs {
 		if e, ok := a.(Err); ok && (e.Tok.Seq != 0 || e.Exp != nil) {
 			h.NErr++
 			h.ErrSeqs = append(h.ErrSeqs, e.Tok.Seq)
